@@ -1,5 +1,6 @@
 import SdJwt.Lemmas.Strip
 import SdJwt.Lemmas.RestoreAll
+import SdJwt.Lemmas.Complete
 /-!
 # C01 — issuance round trip returns exactly the original claims and their paths
 
@@ -62,3 +63,16 @@ theorem C01_walk (d : Disc) (T : MJ) (p : String) (wf : T.WF) (nd : T.vdigests.N
     restoreOne d p T.payload =
       .ok ((T.revealTop d.digest).payload, decide (d.digest ∈ T.topMarks), T.tpaths d.digest p) :=
   MJ.step d T p wf nd hs hm
+
+/-- **The holder accepts and returns exactly the original claims**: all disclosures of a
+conformant tree, in any order (in particular the issuer's descendants-first order), restore to
+`T.plain` — same members, same values, same array lengths and element order, no bookkeeping. -/
+theorem C01_roundtrip_claims (env : Env) (T : MJ) (strs : List String) (inv : TreeInv T)
+    (hdec : ∀ s ∈ strs, ∃ d, fromBase64 env s = .ok d)
+    (hnd : (strs.map env.hash).Nodup)
+    (hacc : ∀ s ∈ strs, ∀ d, fromBase64 env s = .ok d →
+      DOk T d ∧ ∃ x, (d.digest, x) ∈ T.hiddenE ∧ d.value = x.payload)
+    (hall : ∀ g ∈ T.allMarks, ∃ s ∈ strs, env.hash s = g) :
+    ∃ c ps, restoreAll env T.payload strs = .ok (c, ps) ∧ removeAll c = T.plain := by
+  obtain ⟨c, ps, h, _⟩ := restoreAll_complete env T strs inv hdec hnd hacc
+  exact ⟨c, ps, h, C01_restore_all env T strs inv (fun s hs d hf => (hacc s hs d hf).1) c ps h hall⟩
